@@ -101,7 +101,7 @@ func init() {
 		sec := in.tb.UF(fmt.Sprintf("tpsec_%s_%d", key, len(bs)), SBV64, bs...)
 		if in.branch(okT) {
 			// representable range: years 1..9999
-			in.assume(in.tb.BVSLe(in.tb.BV(SBV64, 0), sec))
+			in.assume(in.tb.BVSLe(in.tb.BV(SBV64, 1), sec)) // the clock never reads the zero Time
 			in.assume(in.tb.BVSLt(sec, in.tb.BV(SBV64, 315537897600)))
 			return tuple{in.mkTime(in.tb.BV(SBV64, 0), sec), nilError()}
 		}
@@ -134,7 +134,7 @@ func init() {
 	externals["time.Now"] = func(in *Interp, fr *frame, args []value) value {
 		in.path.nowN++
 		sec := in.tb.Var(fmt.Sprintf("|now!%d|", in.path.nowN), SBV64)
-		in.assume(in.tb.BVSLe(in.tb.BV(SBV64, 0), sec))
+		in.assume(in.tb.BVSLe(in.tb.BV(SBV64, 1), sec)) // the clock never reads the zero Time
 		in.assume(in.tb.BVSLt(sec, in.tb.BV(SBV64, 315537897600)))
 		return in.mkTime(in.tb.BV(SBV64, 0), sec)
 	}
